@@ -54,11 +54,38 @@ def valid_case(seed, idx, tier):
         k += 1
 
 
+def text_pair_strings(tier):
+    import itertools
+
+    n = 4 if tier == "quick" else 6
+    return ["".join(t) for k in range(1, n + 1) for t in itertools.product("ab", repeat=k)]
+
+
+def text_pair_case(strs, idx):
+    """Exhaustive stream: one text (or tail) update `a -> b` for every pair of strings over {a, b} up to a length bound; the
+    formatter alternates over use_replace and text / tail position with the index."""
+    a, b = strs[idx // len(strs)], strs[idx % len(strs)]
+    PN = xt.PNode
+    if idx % 2:
+        L = PN("e", "doc", [], None, None, [PN("e", "p", [], a, None)])
+        R = PN("e", "doc", [], None, None, [PN("e", "p", [], b, None)])
+    else:
+        L = PN("e", "doc", [], None, None, [PN("e", "p", [], "x", a)])
+        R = PN("e", "doc", [], None, None, [PN("e", "p", [], "x", b)])
+    cfg = {"normalize": 0, "pretty_print": False, "use_replace": (idx // 2) % 2 == 1}
+    return L.number(0), R.number(1000), cfg, {}
+
+
 def run_cases(seed, lo, hi, extra):
-    tier, _ = extra
+    tier, mode = extra
     st = core.Stats()
+    strs = text_pair_strings(tier) if mode == "textpairs" else None
     for idx in range(lo, hi):
-        L, R, cfg, opts = valid_case(seed, idx, tier)
+        if mode == "textpairs":
+            L, R, cfg, opts = text_pair_case(strs, idx)
+            st.units["text-pairs"] = st.units.get("text-pairs", 0) + 1
+        else:
+            L, R, cfg, opts = valid_case(seed, idx, tier)
         st.evaluations += 1
         cs = xmlfmt.cfg_sig(cfg)
         st.count("cfg_" + cs)
@@ -115,6 +142,8 @@ def make(mod, pid, count_quick=1500, count_thorough=30000):
         if intensify:
             n *= 3
         st = core.merge_all(core.pmap_chunks(run_cases, seed, n, (tier, "xml")))
+        st.merge(core.merge_all(core.pmap_chunks(run_cases, seed, len(text_pair_strings(tier)) ** 2, (tier, "textpairs"))))
+        st.hist["text_pair_stream_exhaustive_over_ab_up_to"] = 4 if tier == "quick" else 6
         st.failures = [f for f in st.failures if f["prop"] == pid]
         extra = getattr(mod, "extra_units", None)
         if extra:
